@@ -50,6 +50,8 @@ def clone_val(v, memo):
         if isinstance(v, ListVal):
             n = ListVal(); memo[id(v)] = n
             n.items = [clone_val(e, memo) for e in v.items]; n.per_iter = list(v.per_iter)
+            for extra in ("trial", "sym_stores", "filter"):
+                if hasattr(v, extra): setattr(n, extra, list(getattr(v, extra)) if extra == "sym_stores" else getattr(v, extra))
         elif isinstance(v, DictVal):
             n = DictVal(open_=v.open); memo[id(v)] = n
             n.d = {k: clone_val(e, memo) for k, e in v.d.items()}
@@ -270,18 +272,38 @@ class Interp:
     # ---- if
     def exec_if(s, n, st):
         t = s.truth(s.eval(n.test, st), n.test)
-        if t is True: return s.exec_block(n.body, st)
-        if t is False: return s.exec_block(n.orelse, st)
+        return s._branch(t, n.body, n.orelse, st)
+
+    def _branch(s, t, body, orelse, st):
+        """execute an if on a truth value: bool, (cond, polarity) or ('tree', decision tree of bools)."""
+        if t is True: return s.exec_block(body, st)
+        if t is False: return s.exec_block(orelse, st)
+        if t[0] == "tree":
+            T = t[1]
+            if isinstance(T, bool): return s._branch(T, body, orelse, st)
+            if not isinstance(T, PV):
+                c = Cond.get(("src", repr(T)), repr(T))
+                return s._branch((c, True), body, orelse, st)
+            return s._fork(st, T.cond, lambda s1: s._branch(("tree", T.hi), body, orelse, s1),
+                           lambda s2: s._branch(("tree", T.lo), body, orelse, s2))
         cond, pol = t
-        body, orelse = (n.body, n.orelse) if pol else (n.orelse, n.body)
+        if pol: return s._fork(st, cond, lambda s1: s.exec_block(body, s1), lambda s2: s.exec_block(orelse, s2))
+        return s._fork(st, cond, lambda s1: s.exec_block(orelse, s1), lambda s2: s.exec_block(body, s2))
+
+    def _fork(s, st, cond, run_true, run_false):
+        # a condition already assumed on this path is not forked again
+        for c0, p0 in st.assumed:
+            if c0 is cond: return run_true(st) if p0 else run_false(st)
         s1 = st.clone(); s2 = st.clone()
         _restrict_env(s1, cond, True); _restrict_env(s2, cond, False)
         s1.assumed.append((cond, True)); s2.assumed.append((cond, False))
-        r1 = s.exec_block(body, s1)
-        r2 = s.exec_block(orelse, s2)
+        n0 = len(st.assumed)
+        r1 = run_true(s1)
+        r2 = run_false(s2)
         k1 = r1[0] if r1 else None; k2 = r2[0] if r2 else None
         if k1 is None and k2 is None:
-            s1.assumed.pop(len(st.assumed)); s2.assumed.pop(len(st.assumed))
+            if len(s1.assumed) > n0 and s1.assumed[n0][0] is cond: s1.assumed.pop(n0)
+            if len(s2.assumed) > n0 and s2.assumed[n0][0] is cond: s2.assumed.pop(n0)
             _merge_into(st, s1, s2, cond)
             return None
         if k1 == "raise" and k2 == "raise": return ("raise",)
@@ -309,6 +331,8 @@ class Interp:
             if k2 in ("break", "continue") and k1 is None:
                 _adopt(st, s1); st.loop_exits = getattr(st, "loop_exits", []) + [(cond, False, k2)]; return None
             if k1 == k2: _adopt(st, s1); return r1
+            if k1 == "raise": _adopt(st, s2); return r2
+            if k2 == "raise": _adopt(st, s1); return r1
         raise Unknown(f"control-flow merge {k1}/{k2}")
 
     def _learn(s, st, cond, pol):
@@ -346,7 +370,7 @@ class Interp:
         if isinstance(v, PV):
             if v.hi is True and v.lo is False: return (v.cond, True)
             if v.hi is False and v.lo is True: return (v.cond, False)
-            return (_composite_cond(v), True)
+            return ("tree", v)
         if isinstance(v, (Func, Lib, Obj, DictVal)):
             return True
         if isinstance(v, ListVal) and not v.per_iter:
@@ -497,6 +521,7 @@ class Interp:
                 if is_opaque(x): return x
                 t = s.truth(x, n.operand)
                 if isinstance(t, bool): return not t
+                if t[0] == "tree": return Opaque("not of a tree")
                 return mk_pv(t[0], not t[1], t[1])
             return pv_apply(f, v)
         if isinstance(n.op, ast.USub):
@@ -580,9 +605,10 @@ class Interp:
         t = s.truth(s.eval(n.test, st), n.test)
         if t is True: return s.eval(n.body, st)
         if t is False: return s.eval(n.orelse, st)
+        a = s.eval(n.body, st); b = s.eval(n.orelse, st)
+        if t[0] == "tree": return tree_select(t[1], a, b)
         c, pol = t
-        a = pv_restrict(s.eval(n.body, st), c, pol); b = pv_restrict(s.eval(n.orelse, st), c, not pol)
-        return mk_pv(c, a, b) if pol else mk_pv(c, b, a)
+        return mk_pv(c, pv_restrict(a, c, True), pv_restrict(b, c, False)) if pol else mk_pv(c, pv_restrict(b, c, True), pv_restrict(a, c, False))
 
     def e_Lambda(s, n, st):
         fd = ast.FunctionDef(name="<lambda>", args=n.args, body=[ast.Return(value=n.body)], decorator_list=[], lineno=n.lineno)
@@ -672,6 +698,16 @@ def _concrete_seq(v):
             r = range(lo, hi, step)
             if len(r) <= MAX_UNROLL: return [X.const(i) for i in r]
     return None
+
+
+def tree_select(T, a, b):
+    """value of `a if T else b` for a decision tree T of booleans."""
+    if T is True: return a
+    if T is False: return b
+    if isinstance(T, PV):
+        return mk_pv(T.cond, tree_select(T.hi, pv_restrict(a, T.cond, True), pv_restrict(b, T.cond, True)),
+                     tree_select(T.lo, pv_restrict(a, T.cond, False), pv_restrict(b, T.cond, False)))
+    return Opaque("condition is not boolean")
 
 
 def _composite_cond(v):
